@@ -169,4 +169,70 @@ theorem ctorOps_valid {pairs : List (List K × V)} (h : ∀ e ∈ pairs, e.1 ≠
     simp only [Op.valid]
     rw [← h1]; exact h e' he'
 
+/-- the value of the LAST pair with key `k` -/
+def lastValue {A B : Type} [DecidableEq A] (pairs : List (A × B)) (k : A) : Option B :=
+  pairs.foldl (fun cur e => if e.1 = k then some e.2 else cur) none
+
+theorem dget_foldl_dset_pairs {A B : Type} [DecidableEq A] (pairs : List (A × B)) (d : Dict A B) (k : A) :
+    dget (pairs.foldl (fun d e => dset d e.1 e.2) d) k
+      = pairs.foldl (fun cur e => if e.1 = k then some e.2 else cur) (dget d k) := by
+  induction pairs generalizing d with
+  | nil => rfl
+  | cons e r ih =>
+    simp only [List.foldl_cons, ih, dget_dset]
+    by_cases h : e.1 = k
+    · simp [h]
+    · have : ¬ k = e.1 := fun h' => h h'.symm
+      simp [h, this]
+
+/-- `dict(pairs)[k]` is the value of the last pair with key `k` -/
+theorem dget_dictOf {A B : Type} [DecidableEq A] (pairs : List (A × B)) (k : A) :
+    dget (dictOf pairs) k = lastValue pairs k := by
+  unfold dictOf lastValue
+  rw [dget_foldl_dset_pairs]; rfl
+
+/-- assignments of single keys, every key once: the last value assigned to `k` is its entry -/
+theorem lastAssigned_singles (d : Dict K V) (hn : (d.map (·.1)).Nodup) (k : K) (cur : Option V) :
+    lastAssigned k (d.map fun e => Op.set [e.1] e.2) cur
+      = match dget d k with
+        | some v => some v
+        | none => cur := by
+  induction d generalizing cur with
+  | nil => rfl
+  | cons e r ih =>
+    obtain ⟨a, b⟩ := e
+    simp only [List.map_cons, List.nodup_cons] at hn
+    simp only [List.map_cons, lastAssigned, dget_cons, List.mem_singleton]
+    rw [ih hn.2]
+    by_cases hak : a = k
+    · subst hak
+      have : dget r a = none := dget_eq_none_iff.mpr (fun e he h => hn.1 (List.mem_map.mpr ⟨e, he, h⟩))
+      simp [this]
+    · have : ¬ k = a := fun h => hak h.symm
+      simp [hak, this]
+
+theorem map_dset_single (d : Dict K V) (a : K) (b : V) :
+    (dset d a b).map (fun e => ([e.1], e.2)) = dset (d.map (fun e => ([e.1], e.2))) [a] b := by
+  induction d with
+  | nil => rfl
+  | cons e r ih =>
+    obtain ⟨x, y⟩ := e
+    by_cases h : x = a
+    · simp [dset, h]
+    · have : ¬ [x] = [a] := by simpa using h
+      simp only [dset, h, if_false, List.map_cons, this, ih]
+
+theorem dictOf_map_single (pairs : List (K × V)) :
+    dictOf (pairs.map fun e => ([e.1], e.2)) = (dictOf pairs).map (fun e => ([e.1], e.2)) := by
+  unfold dictOf
+  have : ∀ (d : Dict K V), (pairs.map fun e => ([e.1], e.2)).foldl (fun d e => dset d e.1 e.2) (d.map fun e => ([e.1], e.2))
+      = (pairs.foldl (fun d e => dset d e.1 e.2) d).map (fun e => ([e.1], e.2)) := by
+    induction pairs with
+    | nil => intro d; rfl
+    | cons e r ih =>
+      intro d
+      simp only [List.map_cons, List.foldl_cons]
+      rw [← map_dset_single, ih]
+  exact this []
+
 end ALV.C15
